@@ -228,6 +228,20 @@ where
         rset: &mut RecordSet,
         n_records: Option<usize>,
     ) -> Option<Result<(), Error>> {
+        let res = self._read_record_set_exact(rset, n_records);
+        if !matches!(res, Some(Ok(()))) {
+            // The positions found so far refer to a buffer that was not copied:
+            // leave the record set empty
+            rset.buf_positions.clear();
+        }
+        res
+    }
+
+    fn _read_record_set_exact(
+        &mut self,
+        rset: &mut RecordSet,
+        n_records: Option<usize>,
+    ) -> Option<Result<(), Error>> {
         debug_assert!(n_records.unwrap_or(usize::MAX) > 0);
         // after read_record_set(), the state is always Positioned, Parsing or Finished
         match self.state {
